@@ -969,6 +969,18 @@ class Interp(object):
                     self.unsupported("StringIO over abstract text", node)
                 return StringIOModel(init)
             return DequeModel(self.iterate(args[0]) if args else [])
+        if n == "methodcaller" and args and isinstance(args[0], str):
+            mname, margs, mkw = args[0], list(args[1:]), dict(kwargs)
+            return Prim(lambda it, a, k: it.call(it.getattr(a[0], mname), margs, mkw), "methodcaller(%s)" % mname)
+        if n == "attrgetter" and len(args) == 1 and isinstance(args[0], str):
+            def _ag(it, a, k, path=args[0].split(".")):
+                v = a[0]
+                for p_ in path:
+                    v = it.getattr(v, p_)
+                return v
+            return Prim(_ag, "attrgetter(%s)" % args[0])
+        if n == "itemgetter" and len(args) == 1 and not isinstance(args[0], Abs):
+            return Prim(lambda it, a, k, key=args[0]: it.subscript_value(a[0], key), "itemgetter(%r)" % (args[0],))
         if n == "partial":
             return Partial(args[0], args[1:], kwargs)
         if n == "warn":
@@ -1856,6 +1868,18 @@ class Interp(object):
             except Exception:
                 pass
         return False
+
+    def subscript_value(self, c, k):
+        if isinstance(c, Abs):
+            if self.domain is not None:
+                hit, r = self.domain.getitem(self, c, k)
+                if hit:
+                    return r
+            self.unsupported("subscript of %r" % (c,))
+        try:
+            return c[k]
+        except (KeyError, IndexError, TypeError) as ex:
+            raise AbsRaise(type(ex).__name__, ex.args)
 
     def subscript(self, c, sl, env, ctx, node=None):
         if isinstance(sl, ast.Slice):
